@@ -2,7 +2,6 @@ package c14
 
 import (
 	"bytes"
-	"context"
 	"fmt"
 	"strconv"
 	"strings"
@@ -62,7 +61,9 @@ func chunkList(cs [][]byte) string {
 }
 
 func (w *world) execRead(op *readOp) (string, *readObs) {
-	st := &fakeReadStream{fakeStream: fakeStream{context.Background()}, failAt: op.failAt}
+	ctx, cancel := opContext()
+	defer cancel()
+	st := &fakeReadStream{fakeStream: fakeStream{ctx}, failAt: op.failAt}
 	o := &readObs{zstd: strings.HasPrefix(op.kind, "zstd")}
 	w.cas.streaming = true
 	defer func() { w.cas.streaming = false }()
@@ -184,7 +185,8 @@ type batchObs struct {
 
 func (w *world) execBatch(op *batchOp) (string, *batchObs) {
 	inst, fn := callParams(op.call)
-	ctx := context.Background()
+	ctx, cancel := opContext()
+	defer cancel()
 	o := &batchObs{}
 	reply := guard(func() string {
 		switch op.verb {
